@@ -95,7 +95,7 @@ pub fn bit_patterns() -> Vec<Vec<BigUint>> {
 pub const POS_ALPHABET: [u64; 11] = [0, 1, 255, 256, (1 << 19) - 1, 1 << 19, (1 << 19) + 1, 0xAAAAA, 0x55555, (1 << 20) - 2, (1 << 20) - 1];
 
 pub fn limit_id_valid() -> Vec<(u64, u64)> {
-    vec![(100, 1), (1, 0), (2, 0), (2, 1), (100, 0), (100, 99), (65535, 65534), (65535, 0), (256, 255), (257, 256), (65536, 65535), (65536, 0), (65536, 256)]
+    vec![(100, 1), (1, 0), (2, 0), (2, 1), (100, 0), (100, 99), (65535, 65534), (65535, 0), (256, 255), (257, 256), (65536, 65535), (65536, 0), (65536, 256), (356, 101), (65636, 101), (65636, 65535), (65537, 65535)]
 }
 
 /// field alphabet: F* plus 64-bit limb boundaries plus seeded random values
